@@ -21,6 +21,7 @@ def enc(m):
 
 def corpus():
     return [
+        "run prop=C16 mode=constant rate=3000000/100ms dist=none dur=250 conc=1 body=400 timeout=5000",   # C16l / D22: millions of drops, result and metric agree
         enc([("zone", "primary"), ("zone2", "secondary"), ("team", "x")]),
         enc([("env1", "a"), ("env", "b")]),
         enc([("customer", "fake-customer"), ("f1_id", "x"), ("labelx", "y"), ("product", "z")]),
